@@ -175,8 +175,16 @@ func c03FileIdChange(c *lib.Ctx, idx uint64) {
 	// Second file_id on a fresh slot.
 	kind := rng.Intn(4)
 	t2 := ft
-	def := ref.Record{IsDef: true, Local: 9, Global: 0, Arch: byte(rng.Intn(2))}
-	data := ref.Record{Local: 9}
+	// The second file_id sits on a slot of its own; half of the time on slot 0-3 behind a
+	// compressed-timestamp header (a different code path in the decoder).
+	slot := byte(9)
+	compressed := false
+	if rng.Chance(1, 2) {
+		slot = byte(rng.Intn(4))
+		compressed = rng.Chance(2, 3)
+	}
+	def := ref.Record{IsDef: true, Local: slot, Global: 0, Arch: byte(rng.Intn(2))}
+	data := ref.Record{Local: slot, Compressed: compressed, TimeOffset: byte(rng.Intn(32))}
 	switch kind {
 	case 0: // same type restated
 		def.Fields = []ref.FieldDef{{Num: 0, Size: 1, Base: 0}}
@@ -209,6 +217,9 @@ func c03FileIdChange(c *lib.Ctx, idx uint64) {
 		return
 	}
 	c.Count(fmt.Sprintf("second_fileid_kind%d", kind), 1)
+	if compressed {
+		c.Count("second_fileid_behind_compressed_header", 1)
+	}
 	if kind == 0 {
 		if derr != nil {
 			c.Violation(b, "Decode rejected a stream whose second file_id restates the same type: %v", derr)
